@@ -126,6 +126,15 @@ def usageIx (st : Index) (u : Usage) : List Def :=
 def specForUsage (st : Index) (u : Usage) : List Def :=
   specAcceptable st (usageIx st u) u.file u.name
 
+/-- does the import graph of the workspace contain a cycle (E12: a result truncated by the
+    `visited` cut is memoised)? -/
+def hasImportCycle (st : Index) : Bool :=
+  let es := specEdges st
+  let succ (n : Path) : List Path := (es.filter (·.src == n)).map (·.dst)
+  let reach (fuel : Nat) (start : Path) : List Path :=
+    (List.range fuel).foldl (fun acc _ => (acc ++ acc.flatMap succ).eraseDups) (succ start)
+  (es.map (·.src)).eraseDups.any (fun n => (reach (es.length + 1) n).contains n)
+
 /-- which hypotheses of the partial theorems fail for resolving `n` from `f` over `ix`
     (names match `known_findings.json`):
     * `imp-first`  — some ancestor conftest imports the name while the first registered definition
@@ -152,7 +161,8 @@ def specFlags (st : Index) (ix : List Def) (f : Path) (n : String) : List String
   let multiPlugin := ((defsOf ix n).filter (fun d => d.plugin && !d.thirdParty)).length ≥ 2
   (if impFirst then ["imp-first"] else []) ++ (if alias then ["alias"] else []) ++
     (if multiThird then ["multi-third"] else []) ++ (if multiPlugin then ["multi-plugin"] else []) ++
-    (if badConf then ["unparsable-conftest"] else [])
+    (if badConf then ["unparsable-conftest"] else []) ++
+    (if hasImportCycle st then ["import-cycle"] else [])
 
 def flagStr (fl : List String) : String := if fl.isEmpty then "" else " FLAGS=" ++ ",".intercalate fl
 
@@ -281,6 +291,7 @@ def runSpec (c : CaseSt) (t : List String) : Option String :=
         (if uncached then ["uncached-conftest"] else []) ++ (if impAny then ["imported-name"] else []) ++
         (if stray then ["stray-def"] else [])
       if acc.isEmpty && fl.isEmpty then none else some s!"{n}={sorted (acc.map defShort)}{flagStr fl}")))
+  | ["imported", _] => some ("-" ++ flagStr (if hasImportCycle st then ["import-cycle"] else []))
   | ["refs", _, _, n] =>
     let us := st.allUsages.filter (·.name == n)
     let rf := (us.flatMap (fun u => specFlags st (usageIx st u) u.file u.name)).eraseDups
